@@ -75,6 +75,9 @@ pub struct GSpec {
     pub acc: bool,
     /// build this grammar in the subject's `grammar-extras` configuration
     pub extras: bool,
+    /// the rule bodies carry node tags (`#t = e`, grammar-extras only): gramgen itself (built without that
+    /// feature) parses the text with the tags removed - they do not change what is matched
+    pub tagged: bool,
     /// do not derive the pest parser (C20 variants share the base grammar's pest parser results via the base entry)
     pub no_pest: bool,
 }
@@ -87,6 +90,39 @@ impl GSpec {
             s.push('\n');
         }
         s
+    }
+    /// The text gramgen itself can parse: node tags removed when `tagged`.
+    pub fn src_plain(&self) -> String {
+        let src = self.src();
+        if !self.tagged {
+            return src;
+        }
+        let cs: Vec<char> = src.chars().collect();
+        let mut out = String::new();
+        let mut i = 0;
+        while i < cs.len() {
+            if cs[i] == '#' {
+                let mut j = i + 1;
+                while j < cs.len() && (cs[j].is_alphanumeric() || cs[j] == '_') {
+                    j += 1;
+                }
+                let mut k = j;
+                while k < cs.len() && cs[k] == ' ' {
+                    k += 1;
+                }
+                if j > i + 1 && k < cs.len() && cs[k] == '=' {
+                    k += 1;
+                    while k < cs.len() && cs[k] == ' ' {
+                        k += 1;
+                    }
+                    i = k;
+                    continue;
+                }
+            }
+            out.push(cs[i]);
+            i += 1;
+        }
+        out
     }
     pub fn entry_rules(&self) -> usize {
         self.rules.iter().filter(|r| r.entry).count()
@@ -101,7 +137,7 @@ fn main() {
     // validate every grammar with pest (a family must only emit pest-valid grammars)
     let mut bad = 0;
     for s in &specs {
-        if let Err(e) = refpeg::grammar::Grammar::load(&s.src()) {
+        if let Err(e) = refpeg::grammar::Grammar::load(&s.src_plain()) {
             eprintln!("gramgen: grammar {} rejected by pest_meta:\n{}\n{}", s.id, s.src(), e);
             bad += 1;
         }
